@@ -15,7 +15,7 @@ Definition sc_reader_ws_close_is_eof : bool := true.
 Definition sc_negotiator_records_ws : bool := true.
 
 (* ---- session.go: calls that can block inside a critical section of the state mutex ---- *)
-Definition sc_statelock_blocking_calls : list bytes := [hex "53657373696f6e2e636c6f736553657373696f6e3a20436c6f7365" (* Session.closeSession: Close *)].
+Definition sc_statelock_blocking_calls : list bytes := [].
 
 (* ---- session.go: who takes the output lock, and who of them tests the closed bit after taking it ---- *)
 Definition sc_out_lockers : list bytes := [hex "53657373696f6e2e436c6f7365" (* Session.Close *); hex "53657373696f6e2e456e636f6465" (* Session.Encode *); hex "53657373696f6e2e456e636f6465456c656d656e74" (* Session.EncodeElement *); hex "53657373696f6e2e546f6b656e577269746572" (* Session.TokenWriter *); hex "53657373696f6e2e73656e644572726f72" (* Session.sendError *); hex "73656e64" (* send *)].
@@ -38,6 +38,7 @@ Definition sc_serve_defer_calls : list bytes := [hex "636c6f7365496e707574537472
 (* ---- session.go: SetCloseDeadline replaces the input context under a lock ---- *)
 Definition sc_setclosedeadline_locked : bool := true.
 Definition sc_serve_reads_context_every_turn : bool := true.
+Definition sc_closesession_sets_bit_before_write : bool := false.
 Definition sc_setclosedeadline_fresh_context : bool := true.
 Definition sc_setclosedeadline_cancels_previous : bool := true.
 Definition sc_setclosedeadline_zero_is_no_deadline : bool := true.
